@@ -49,15 +49,126 @@ def _strip_not(test, truth):
     return test, truth
 
 
-def _split_ifexp(conds, e):
-    """split top-level conditional expressions of e into paths"""
+def _split_ifexp(conds, e, deep=False):
+    """split conditional expressions of e into paths: the top-level ones, and with deep=True the first one found anywhere inside
+    (outside lambdas / comprehensions), repeatedly"""
     if isinstance(e, ast.IfExp):
         t, tr = _strip_not(e.test, True)
-        return _split_ifexp(conds + [(t, tr)], e.body) + _split_ifexp(conds + [(t, not tr)], e.orelse)
+        return _split_ifexp(conds + [(t, tr)], e.body, deep) + _split_ifexp(conds + [(t, not tr)], e.orelse, deep)
+    if deep:
+        target = None
+        stack = [e]
+        while stack and target is None:
+            x = stack.pop(0)
+            for ch in ast.iter_child_nodes(x):
+                if isinstance(ch, (ast.Lambda, ast.ListComp, ast.SetComp, ast.DictComp, ast.GeneratorExp)):
+                    continue
+                if isinstance(ch, ast.IfExp):
+                    target = ch
+                    break
+                stack.append(ch)
+        if target is not None:
+            out = []
+            t, tr = _strip_not(target.test, True)
+            for branch, truth in ((target.body, tr), (target.orelse, not tr)):
+                e2 = _replace_first_ifexp(e, branch)
+                out += _split_ifexp(conds + [(t, truth)], e2, deep)
+            return out
     return [(conds, e)]
 
 
-def guarded_returns(fn_node, max_paths=64):
+def _replace_first_ifexp(e, branch_of):
+    """copy of e with the first (breadth-first, outside lambdas/comprehensions) IfExp replaced by a copy of branch_of"""
+    e = copy.deepcopy(e)
+    # locate the first IfExp in the copy in the same traversal order
+    stack = [e]
+    while stack:
+        x = stack.pop(0)
+        for fld, val in ast.iter_fields(x):
+            items = val if isinstance(val, list) else [val]
+            for i, ch in enumerate(items):
+                if not isinstance(ch, ast.AST) or isinstance(ch, (ast.Lambda, ast.ListComp, ast.SetComp, ast.DictComp, ast.GeneratorExp)):
+                    continue
+                if isinstance(ch, ast.IfExp):
+                    # which branch: compare by dump with the original branches
+                    new = copy.deepcopy(ch.body if ast.dump(ch.body) == ast.dump(branch_of) else ch.orelse)
+                    if isinstance(val, list):
+                        val[i] = new
+                    else:
+                        setattr(x, fld, new)
+                    return e
+                stack.append(ch)
+    return e
+
+
+def _never_none(e):
+    return isinstance(e, (ast.JoinedStr, ast.List, ast.Tuple, ast.Dict, ast.Set, ast.ListComp, ast.BinOp)) or \
+        (isinstance(e, ast.Constant) and e.value is not None) or \
+        (isinstance(e, ast.Call) and isinstance(e.func, ast.Name) and e.func.id in ('str', 'int', 'len', 'list', 'dict', 'set', 'tuple', 'repr', 'abs', 'sorted'))
+
+
+def _decide(t):
+    """truth value of a test that needs no knowledge of the state, else None"""
+    if isinstance(t, ast.Constant):
+        return bool(t.value)
+    if isinstance(t, ast.Compare) and len(t.ops) == 1 and isinstance(t.ops[0], (ast.Is, ast.IsNot)) \
+            and isinstance(t.comparators[0], ast.Constant) and t.comparators[0].value is None:
+        is_ = isinstance(t.ops[0], ast.Is)
+        if isinstance(t.left, ast.Constant) and t.left.value is None:
+            return is_
+        if _never_none(t.left):
+            return not is_
+    return None
+
+
+def _first_ifexp(nodes):
+    for n in nodes:
+        stack = [n]
+        while stack:
+            x = stack.pop(0)
+            if isinstance(x, ast.IfExp):
+                return x
+            for ch in ast.iter_child_nodes(x):
+                if not isinstance(ch, (ast.Lambda, ast.ListComp, ast.SetComp, ast.DictComp, ast.GeneratorExp)):
+                    stack.append(ch)
+    return None
+
+
+def _choose(node, test_dump, take_body):
+    """copy of node with every IfExp whose test dumps as test_dump replaced by its body / orelse"""
+    class R(ast.NodeTransformer):
+        def visit_IfExp(self, n):
+            self.generic_visit(n)
+            if ast.dump(n.test) == test_dump:
+                return n.body if take_body else n.orelse
+            return n
+    return R().visit(copy.deepcopy(node))
+
+
+def _resolve_all_ifexps(paths, max_paths):
+    """every conditional expression left inside a returned expression or a condition is decided: the path forks on its test, and
+    all conditional expressions with the same test (in the expression and in the conditions collected so far) take the same branch"""
+    work = list(paths)
+    done = []
+    while work:
+        conds, e, st = work.pop()
+        nodes = ([e] if e is not None else []) + [t for t, _ in conds]
+        ie = _first_ifexp(nodes)
+        if ie is None:
+            done.append((conds, e, st))
+            continue
+        if len(done) + len(work) > max_paths:
+            return None
+        td = ast.dump(ie.test)
+        t0, tr0 = _strip_not(copy.deepcopy(ie.test), True)
+        for take in (True, False):
+            c2 = [(_choose(t, td, take), tr) for t, tr in conds] + [(t0, tr0 if take else not tr0)]
+            e2 = _choose(e, td, take) if e is not None else None
+            work.append((c2, e2, st))
+    return done
+
+
+def guarded_returns(fn_node, max_paths=64, deep_ifexp=False):
     """[(conds, expr, return_stmt)] or None.  conds: list of (test ast, bool); expr: substituted expression (None for a bare return /
     falling off the end); return_stmt: the Return statement of the real tree the path ends in (None when falling off the end)."""
     out = []
@@ -86,6 +197,29 @@ def guarded_returns(fn_node, max_paths=64):
                 env = dict(env)
                 env[st.targets[0].id] = v
                 continue
+            if isinstance(st, ast.Assign) and len(st.targets) == 1 and isinstance(st.targets[0], ast.Tuple) \
+                    and all(isinstance(t_, ast.Name) for t_ in st.targets[0].elts):
+                names = [t_.id for t_ in st.targets[0].elts]
+                if isinstance(st.value, ast.IfExp):
+                    # `a, b = X if c else Y`: the two assignments under an if
+                    syn = ast.copy_location(ast.If(test=st.value.test,
+                                                   body=[ast.copy_location(ast.Assign(targets=st.targets, value=st.value.body), st)],
+                                                   orelse=[ast.copy_location(ast.Assign(targets=st.targets, value=st.value.orelse), st)]), st)
+                    run([syn] + list(stmts[i + 1:]), env, conds)
+                    return
+                v = _subst(st.value, env)
+                vals = None
+                if isinstance(v, ast.Tuple) and len(v.elts) == len(names):
+                    vals = list(v.elts)
+                elif isinstance(v, ast.Call) and isinstance(v.func, ast.Name) and v.func.id == 'divmod' and len(v.args) == 2 and len(names) == 2:
+                    vals = [ast.BinOp(left=copy.deepcopy(v.args[0]), op=ast.FloorDiv(), right=copy.deepcopy(v.args[1])),
+                            ast.BinOp(left=copy.deepcopy(v.args[0]), op=ast.Mod(), right=copy.deepcopy(v.args[1]))]
+                if vals is None:
+                    raise Refuse()
+                env = dict(env)
+                for nm_, vl_ in zip(names, vals):
+                    env[nm_] = ast.copy_location(vl_, st)
+                continue
             if isinstance(st, ast.AnnAssign) and isinstance(st.target, ast.Name) and st.value is not None:
                 v = _subst(st.value, env)
                 env = dict(env)
@@ -100,6 +234,11 @@ def guarded_returns(fn_node, max_paths=64):
             if isinstance(st, ast.If):
                 t, tr = _strip_not(_subst(st.test, env), True)
                 rest = stmts[i + 1:]
+                known = _decide(t)
+                if known is not None:
+                    # the substituted test is a constant fact (`None is None`, `str(x) is None`): only one branch exists
+                    run(list(st.body if known == tr else st.orelse) + list(rest), env, conds)
+                    return
                 run(list(st.body) + list(rest), env, conds + [(t, tr)])
                 run(list(st.orelse) + list(rest), env, conds + [(t, not tr)])
                 return
@@ -116,6 +255,10 @@ def guarded_returns(fn_node, max_paths=64):
         run(list(fn_node.body), {}, [])
     except Refuse:
         return None
+    if deep_ifexp:
+        out = _resolve_all_ifexps(out, max_paths)
+        if out is None:
+            return None
     for conds, e, st in out:
         if e is not None:
             ast.fix_missing_locations(e)
